@@ -36,11 +36,12 @@ LinkOpsPreserveReads(r) == r.op \in {"hard", "soft", "reflink"} =>
     \A p \in Reported(r) : p \in DOMAIN MapOf(r.reads1) /\ MapOf(r.reads1)[p] = MapOf(r.reads0)[p]
 
 \* move: the bytes of every path that disappeared are readable under the target directory: at the mapped target of
-\* the path or - for a reported symbolic link, which is moved as a link - in a regular file under the target directory
+\* the path or - for a reported symbolic link, which is moved as a link - in a regular file under the target directory or, when
+\* the link's target itself could not be moved (collision, lock), in the regular file that was left in place
 MoveKeepsBytes(r) == r.op = "move" =>
     \A p \in Reported(r) : (p \notin Paths(r.post)) =>
         \/ (p \in DOMAIN MapOf(r.moved) /\ MapOf(r.moved)[p] = MapOf(r.reads0)[p])
-        \/ (EntryOf(r.pre, p).k = "link" /\ MapOf(r.reads0)[p] \in RangeOf(r.mvfiles))
+        \/ (EntryOf(r.pre, p).k = "link" /\ (MapOf(r.reads0)[p] \in RangeOf(r.mvfiles) \/ MapOf(r.reads0)[p] \in RegularContents(r.post)))
 
 Verdict(r) == [id |-> r.id, ContentKept |-> ContentKept(r), ReplicasUntouched |-> ReplicasUntouched(r), OutsideUntouched |-> OutsideUntouched(r),
                LinkOpsPreserveReads |-> LinkOpsPreserveReads(r), MoveKeepsBytes |-> MoveKeepsBytes(r)]
